@@ -30,6 +30,8 @@ type plDatagram struct {
 	// Proto: pipeline the datagram is sent to when it is not the case's own (cross traffic: self-contained
 	// datagrams of another protocol, decoded by that protocol's own workers in the same process at the same time)
 	Proto string `json:"proto,omitempty"`
+	// PauseMS > 0: nothing is sent for this long before the datagram (every worker of the pipeline sits idle meanwhile)
+	PauseMS int `json:"pause_ms,omitempty"`
 }
 
 type plCase struct {
@@ -60,16 +62,17 @@ type plCase struct {
 	// Unjudged: indexes of phases in which a template is redefined while data of both definitions is in flight on
 	// several workers: which datagram meets which definition is the scheduler's choice, so what such a phase publishes
 	// is not compared (it must not crash); the phase after it, decoded once everything has settled, is
-	Unjudged  []int          `json:"unjudged,omitempty"`
-	Siblings  bool           `json:"siblings,omitempty"` // the case ends with a flood of related exporters (see genPipeline)
-	Filter    []uint32       `json:"filter,omitempty"`
-	Exporters []wire.Hex     `json:"exporters"`
-	Phases    [][]plDatagram `json:"phases"`
-	Race      bool           `json:"race"` // run on the -race build of the driver
+	Unjudged    []int          `json:"unjudged,omitempty"`
+	QuietSpells bool           `json:"quiet_spells,omitempty"` // the last phase has pauses during which all workers sit idle
+	Siblings    bool           `json:"siblings,omitempty"`     // the case ends with a flood of related exporters (see genPipeline)
+	Filter      []uint32       `json:"filter,omitempty"`
+	Exporters   []wire.Hex     `json:"exporters"`
+	Phases      [][]plDatagram `json:"phases"`
+	Race        bool           `json:"race"` // run on the -race build of the driver
 }
 
 const c12Rule = "case = protocol pipeline (ipfix | nf9 | nf5 | sflow), 1..16 real worker goroutines, UDP size (mostly 1500), 1..6 exporters, and phases: announce phases (each template key at most once) " +
-	"alternating with data phases of 20..800 datagrams (in a sixth of the IPFIX / NetFlow v9 cases a template is redefined while data of both definitions is in flight on all workers — that phase is not compared, the data that follows once it has settled is; in another sixth an announcement storm: 200..800 keys announced back to back and decoded by all workers at once, then data for every key; a sixth of all cases end with a flood of 1500..5000 small datagrams from two to four *sibling exporters* — the same host number at different sites, host numbers 64 apart, or neighbours — decoded by >= 4 workers at once, IPFIX / NetFlow v9 siblings using one template id with a definition of their own each) with strongly mixed sizes (tens of octets next to ~1400) and unique (exporter, sequence number), incl. identical template refreshes, unknown-template, truncated, corrupted, reserved-id, garbage and oversize datagrams; " +
+	"alternating with data phases of 20..800 datagrams (in a sixth of the IPFIX / NetFlow v9 cases a template is redefined while data of both definitions is in flight on all workers — that phase is not compared, the data that follows once it has settled is; in another sixth an announcement storm: 200..800 keys announced back to back and decoded by all workers at once, then data for every key; a sixth of all cases end with a flood of 1500..5000 small datagrams from two to four *sibling exporters* — the same host number at different sites, host numbers 64 apart, or neighbours — decoded by >= 4 workers at once, IPFIX / NetFlow v9 siblings using one template id with a definition of their own each; another sixth end with a phase that repeats decodable datagrams of the earlier phases with one to three quiet spells of 0.6..2.6 s during which every worker sits idle) with strongly mixed sizes (tens of octets next to ~1400) and unique (exporter, sequence number), incl. identical template refreshes, unknown-template, truncated, corrupted, reserved-id, garbage and oversize datagrams; " +
 	"in half of the cases one or two OTHER protocols' pipelines run at the same time on self-contained cross traffic (own workers, pools, queues; their receive buffer size drawn independently), in a third workers are told to quit and are replaced while traffic flows (every 1st..50th datagram); " +
 	"injected exactly as the receive loop does (pooled buffer, copy, send on the real UDP channel), real MQ channels drained concurrently or, in half of the cases, only after the workers are joined (slow consumer: a message that aliases a reused buffer is then overwritten for certain), workers joined per phase; half of the cases run on the -race build of the driver; " +
 	"oracle = per phase the multiset of published payloads equals, byte for byte, the payloads obtained by decoding each datagram on its own in the harness against a replica cache holding the templates of earlier phases " +
@@ -669,6 +672,37 @@ func genPipeline(t *rapid.T, proto string, envs map[string]*wire.GenEnv, maxPhas
 		c.Subset = append(c.Subset, len(c.Phases))
 		c.Phases = append(c.Phases, flood)
 	}
+	// quiet spells: a last phase repeats up to forty decodable datagrams of the earlier phases with one to three pauses
+	// of 0.6..2.6 s (4 s at most) in between, during which every worker sits idle: what a datagram is decoded and
+	// published as does not depend on how long its worker has had nothing to do (idle timers, periodic housekeeping,
+	// buffers let go of after a while)
+	if !e2e && rapid.IntRange(0, 5).Draw(t, "quietspells") == 0 {
+		var pool []plDatagram
+		for _, ph := range c.Phases {
+			for _, d := range ph {
+				if d.Proto == "" && (d.Class == "valid" || d.Class == "partial") && len(d.Data) <= 9000 {
+					pool = append(pool, d)
+				}
+			}
+		}
+		if len(pool) > 0 {
+			var quiet []plDatagram
+			for i, n := 0, rapid.IntRange(6, 40).Draw(t, "nquiet"); i < n; i++ {
+				quiet = append(quiet, pool[rapid.IntRange(0, len(pool)-1).Draw(t, "quietpick")])
+			}
+			total := 0
+			for k, np := 0, rapid.IntRange(1, 3).Draw(t, "nspells"); k < np; k++ {
+				ms := rapid.SampledFrom([]int{600, 800, 1100, 1600, 2600}).Draw(t, "spellms")
+				if total+ms > 4000 {
+					continue
+				}
+				total += ms
+				quiet[rapid.IntRange(1, len(quiet)-1).Draw(t, "spellat")].PauseMS += ms
+			}
+			c.QuietSpells = true
+			c.Phases = append(c.Phases, quiet)
+		}
+	}
 	// boundary of the receive buffer: its size is set to the length of one of the case's own datagrams (or one
 	// octet less / more), so some datagrams fill the buffer exactly, some are cut by one octet, some just fit
 	if rapid.IntRange(0, 2).Draw(t, "exactfit") == 0 {
@@ -756,7 +790,7 @@ func sequentialDecode(proto string, replica *flowCache, addr []byte, data []byte
 func toDrvPhase(c *plCase, ph []plDatagram) []drvDatagram {
 	out := make([]drvDatagram, 0, len(ph))
 	for i, d := range ph {
-		out = append(out, drvDatagram{Addr: hex.EncodeToString(c.Exporters[d.Exp]), Port: 2000 + i%1000, Data: hex.EncodeToString(d.Data), Proto: d.Proto})
+		out = append(out, drvDatagram{Addr: hex.EncodeToString(c.Exporters[d.Exp]), Port: 2000 + i%1000, Data: hex.EncodeToString(d.Data), Proto: d.Proto, PauseMS: d.PauseMS})
 	}
 	return out
 }
@@ -989,6 +1023,7 @@ func runPipeline(prop string, c *plCase) (v verdict, sig string, err error) {
 	v.label(c.Verbose, "verbose-logging")
 	v.label(c.ExactFit, "udp-size-fitted-to-a-datagram")
 	v.label(c.Siblings, "sibling-exporters-flood")
+	v.label(c.QuietSpells, "quiet-spells-with-idle-workers")
 	if prop == "C13" {
 		v.NT = classMix
 	} else {
